@@ -44,6 +44,10 @@ CLAIMED = {
             'enabled_correct (generic), registry_sound / hier_last_pass_gen / ddmin_passes_spec_gen by computation over Gen/Tables.v regenerated from the source on every run; '
             'tie: real options.parse_options + auto_detect_theories + get_passes/ddmin_passes for all single options, ordered pairs and random sequences.',
             'Trusted: Coq kernel, ast translator (fails closed, behaviour-relevant functions pinned by fingerprint), extraction, harness. argparse prefix abbreviations not modelled.', 'DESIGN.md section 4, C14'),
+    'C10': ('Coq proof on the decision code translated from checker.py that a timed-out run is rejected unless the golden run ended the same way + real runs with hanging/spinning/allocating/self-killing commands',
+            'timeout_rejected, timeout_cc_rejected, same_way_accepted, different_exit_rejected about Gen/CheckerGen.v (regenerated each run) and facts read off execute() (kill, communicate(timeout), exact shape of the timeout handler); '
+            'tie: real runs where fault pairs make particular candidates hang/spin/allocate/die, over strategies, -j, --timeout/--memout, SIGKILL golden runs and hanging golden runs; every written content, wall time and surviving children are checked.',
+            'PARTIAL: kernel enforcement of RLIMIT_*, pipe draining, kill/wait ordering and the Popen fact that returncode is None right after kill() are runtime behaviour the model assumes.', 'DESIGN.md section 4, C10'),
 }
 ALL = ['C%02d' % i for i in range(1, 19)]
 NOT_APPLICABLE = {p: PARTIAL for p in ALL if p not in CLAIMED}
